@@ -16,6 +16,7 @@ import (
 	"os"
 	"path/filepath"
 	"sort"
+	"strconv"
 	"strings"
 	"testing"
 	"time"
@@ -45,6 +46,50 @@ type GraphSpec struct {
 	Name  string     `json:"name"`
 	Nodes []NodeSpec `json:"nodes,omitempty"`
 	Rels  []RelSpec  `json:"rels,omitempty"`
+	// Wide > 0: the compact form of a graph with Wide further nodes (ids WideBase, WideBase+1, ...), the
+	// i-th of which carries the kinds {W<b> : bit b of i+1 set} - Wide distinct kind combinations.
+	// Expand turns it into ordinary nodes.
+	Wide     int    `json:"wide,omitempty"`
+	WideBase uint64 `json:"wide_base,omitempty"`
+}
+
+// Expand returns the specification with every compact (Wide) graph written out.
+func Expand(spec DBSpec) DBSpec {
+	out := DBSpec{}
+	for _, g := range spec.Graphs {
+		if g.Wide > 0 {
+			nodes := append(make([]NodeSpec, 0, len(g.Nodes)+g.Wide), g.Nodes...)
+			for i := 0; i < g.Wide; i++ {
+				var ks []string
+				for b := 0; b < 24; b++ {
+					if (i+1)>>b&1 == 1 {
+						ks = append(ks, "W"+strconv.Itoa(b))
+					}
+				}
+				nodes = append(nodes, NodeSpec{ID: g.WideBase + uint64(i), Kinds: ks})
+			}
+			g.Nodes, g.Wide = nodes, 0
+		}
+		out.Graphs = append(out.Graphs, g)
+	}
+	return out
+}
+
+// GenWide draws one graph with n distinct node kind combinations and a handful of relationships,
+// some between the last nodes. Bookkeeping that numbers kind combinations, ids or ordinals in a
+// narrow integer is only exercised by graphs of this shape.
+func GenWide(r *rand.Rand, n int) DBSpec {
+	g := GraphSpec{Name: graphNames[r.IntN(len(graphNames))], Wide: n, WideBase: uint64(1 + r.IntN(3))}
+	pick := func() uint64 {
+		if r.IntN(2) == 0 {
+			return g.WideBase + uint64(n-1-r.IntN(min(n, 8)))
+		}
+		return g.WideBase + uint64(r.IntN(n))
+	}
+	for i := 0; i < 2+r.IntN(5); i++ {
+		g.Rels = append(g.Rels, RelSpec{ID: uint64(10 + i), Start: pick(), End: pick(), Kind: relKinds[r.IntN(len(relKinds))]})
+	}
+	return DBSpec{Graphs: []GraphSpec{g}}
 }
 
 type DBSpec struct {
@@ -60,6 +105,19 @@ type Opts struct {
 }
 
 var graphNames = []string{"default", "g one", "grüße/π.x", "a.b", "UPPER lower", "x%2Fy", "..dots..", "名前"}
+
+// confusable: names that differ, but only in ways a file system, URL escaping or Unicode folding may
+// ignore; two graphs of one collection carrying such names are still two graphs
+var confusable = [][]string{
+	{"Corp", "corp", "CORP"},
+	{"x/y", "x%2Fy", "x%252Fy"},
+	{"a b", "a+b", "a%20b"},
+	{"é", "É", "e\u0301"},
+	{"g", "g ", " g"},
+	{"default", "Default", "default."},
+	{"a.b", "a.B", "a_b"},
+}
+
 var kindPool = []string{"User", "Computer", "Group", "Ünï", "A B", "Tier,Zero", "Tier", "Zero", "A|B", "A", "B", "x:y", "x", "y"}
 var relKinds = []string{"MemberOf", "AdminTo", "Has Session", "É"}
 var keyPool = []string{"name", "objectid", "n", "flag", "list", "nested", "ключ", "with space", "<html>&"}
@@ -118,6 +176,18 @@ func GenDB(r *rand.Rand, maxGraphs, maxNodes, maxRels int) DBSpec {
 	ng := 1 + r.IntN(maxGraphs)
 	names := append([]string{}, graphNames...)
 	r.Shuffle(len(names), func(i, j int) { names[i], names[j] = names[j], names[i] })
+	if ng > 1 && r.IntN(3) == 0 {
+		grp := append([]string{}, confusable[r.IntN(len(confusable))]...)
+		r.Shuffle(len(grp), func(i, j int) { grp[i], grp[j] = grp[j], grp[i] })
+		names = append(grp, names...)
+		for i := len(grp); i < len(names); i++ {
+			for _, c := range grp {
+				if names[i] == c {
+					names[i] += "#"
+				}
+			}
+		}
+	}
 	for g := 0; g < ng; g++ {
 		gs := GraphSpec{Name: names[g]}
 		nn := r.IntN(maxNodes + 1)
